@@ -67,19 +67,25 @@ JudgeMarkers(o) ==
   LET okrun == o.status = "ok" IN
   LET c == IF okrun /\ b.ok THEN Code(b) ELSE <<>> IN
   LET lines == LinesAcc(o.outb, c, 1, 1, 1, <<>>) IN
-  LET a == IF okrun /\ b.ok /\ o.names = 1 THEN Lex(o.srcb, TRUE) ELSE [ok |-> FALSE, toks |-> <<>>] IN
+  LET a == IF okrun /\ b.ok THEN Lex(o.srcb, TRUE) ELSE [ok |-> FALSE, toks |-> <<>>] IN
   LET ca == IF a.ok THEN Code(a) ELSE <<>> IN
-  LET moved == IF a.ok THEN MovedNames(o, ca, LinesAcc(o.srcb, ca, 1, 1, 1, <<>>), c, lines) ELSE {} IN
+  LET la == IF a.ok THEN LinesAcc(o.srcb, ca, 1, 1, 1, <<>>) ELSE <<>> IN
+  LET moved == IF a.ok /\ o.names = 1 THEN MovedNames(o, ca, la, c, lines) ELSE {} IN
+  \* skeleton clause: when the pipeline left the token skeleton unchanged (same number of code tokens, the same token at every
+  \* position except that identifiers may have been renamed), EVERY token is original code and must be on its line
+  LET skeleton == a.ok /\ Len(ca) = Len(c) /\ Len(c) > 0 /\ \A j \in 1..Len(c) : ca[j].k = c[j].k /\ (ca[j].k # "name" => ca[j].v = c[j].v) IN
+  LET skel_off == IF skeleton THEN {j \in 1..Len(c) : lines[j] # la[j] + o.shift} ELSE {} IN
   LET ms == {j \in 1..Len(c) : IsMarker(c[j])} IN
   LET onLine(j) == lines[j] = DigitsVal(c[j].v, 2, 0) + o.shift IN
   \* a rule may COPY an expression (the copy is new code): a marker is misplaced only if NO occurrence of it is on its line
   LET off == {j \in ms : ~onLine(j) /\ ~\E k \in ms : c[k].v = c[j].v /\ onLine(k)} IN
   LET first == IF off = {} THEN 0 ELSE CHOOSE j \in off : \A k \in off : j <= k IN
-  \* code_equal carries the verdict of the names clause; `moved` lists the identifiers found on another line
+  \* code_equal carries the verdict of the names clause (`moved` lists the identifiers found on another line), comments_ok
+  \* the verdict of the skeleton clause
   [id |-> o.id, kind |-> o.kind, status |-> o.status, lex_in |-> TRUE, lex_out |-> b.ok, identical |-> FALSE,
-   code_equal |-> moved = {}, comments_ok |-> TRUE, lines_ok |-> okrun /\ b.ok /\ off = {},
+   code_equal |-> moved = {}, comments_ok |-> skel_off = {}, lines_ok |-> okrun /\ b.ok /\ off = {},
    shift |-> IF first = 0 THEN 0 ELSE lines[first] - DigitsVal(c[first].v, 2, 0),
-   ok |-> okrun /\ b.ok /\ off = {} /\ moved = {}, ncode |-> Cardinality(ms), ncomments |-> IF first = 0 THEN 0 ELSE DigitsVal(c[first].v, 2, 0),
+   ok |-> okrun /\ b.ok /\ off = {} /\ moved = {} /\ skel_off = {}, ncode |-> Cardinality(ms), ncomments |-> IF first = 0 THEN 0 ELSE DigitsVal(c[first].v, 2, 0),
    moved |-> LET q == moved IN [k \in 1..Cardinality(q) |-> CHOOSE v \in q : Cardinality({w \in q : LessBytes(w, v)}) = k - 1]]
 
 \* C03, weaker clause: `tspans` lists the byte ranges of the source that are type annotations; there (and only there)
